@@ -1,6 +1,7 @@
 package props
 
 import (
+	"encoding/json"
 	"fmt"
 	"reflect"
 	"strings"
@@ -290,4 +291,63 @@ func resultPtrs(rs []ovsdb.OperationResult) []*ovsdb.OperationResult {
 		out[i] = &rs[i]
 	}
 	return out
+}
+
+// TestC15Large: transactions of several hundred operations. Every insert without "uuid"
+// gets a uuid of its own from the server, so every name denotes its own row, also when the
+// inserts are 256 or more operations apart.
+func TestC15Large(t *testing.T) {
+	w := c16World(t)
+	for _, n := range []int{257, 300, 520} {
+		db, err := kit.NewDB(w)
+		if err != nil {
+			t.Fatal(err)
+		}
+		var ops []json.RawMessage
+		for i := 0; i < n; i++ {
+			table, col := "T0", "marker"
+			if i%3 == 1 {
+				table, col = "T2", ""
+			}
+			row := "{}"
+			if col != "" {
+				row = fmt.Sprintf(`{"%s":"r%d"}`, col, i)
+			}
+			ops = append(ops, json.RawMessage(fmt.Sprintf(`{"op":"insert","table":"%s","uuid-name":"n%d","row":%s}`, table, i, row)))
+		}
+		// references by name to the first and the last T0 row
+		last := n - 1
+		for last%3 == 1 {
+			last--
+		}
+		ops = append(ops, json.RawMessage(fmt.Sprintf(`{"op":"insert","table":"T1","row":{"name":"first","peer":["named-uuid","n0"]}}`)))
+		ops = append(ops, json.RawMessage(fmt.Sprintf(`{"op":"insert","table":"T1","row":{"name":"last","peer":["named-uuid","n%d"]}}`, last)))
+		out := db.TransactViaServer(ops)
+		kase := map[string]interface{}{"operations": n + 2}
+		if !out.Committed {
+			kit.Fail(t, "C15", "large.rejected", kase, "a transaction of %d named inserts without uuid is rejected: %s %v", n, kit.ResultsJSON(out.Results)[:300], out.CommitErr)
+		}
+		seen := map[string]int{}
+		for i := 0; i < n; i++ {
+			u := out.Results[i].UUID.GoUUID
+			if j, dup := seen[u]; dup {
+				kit.Fail(t, "C15", "large.shared-uuid", kase, "inserts %d and %d of one transaction were given the same uuid %s", j, i, u)
+			}
+			seen[u] = i
+		}
+		st, err := db.Snapshot()
+		if err != nil {
+			t.Fatal(err)
+		}
+		for _, r := range st["T1"] {
+			want := out.Results[0].UUID.GoUUID
+			if r["name"].K[0].S == "last" {
+				want = out.Results[last].UUID.GoUUID
+			}
+			if len(r["peer"].K) != 1 || r["peer"].K[0].S != want {
+				kit.Fail(t, "C15", "name.resolution", kase, "row %s refers to %s, its name denotes %s", r["name"].K[0].S, r["peer"].Key(), want)
+			}
+		}
+		kit.Record("C15", fmt.Sprintf("large|%d", n), true, func() interface{} { return kase }, "large-transaction")
+	}
 }
